@@ -3536,11 +3536,11 @@ class SourceCatalog:
         semimajor_sig = self.semimajor_sigma.value
         kron_radius = self.kron_radius.value
         radius = semimajor_sig * kron_radius * self.kron_params[0]
+        if self.isscalar:
+            radius = np.array([radius])
         mask = radius == 0
         if np.any(mask):
             radius[mask] = self.kron_params[2]
-        if self.isscalar:
-            radius = np.array([radius])
         return radius
 
     @staticmethod
